@@ -1252,7 +1252,8 @@ def d_echo( ctx ):
         res.ok( src, copy[0][0], 'data.response.enip = dotdict( data.request.enip )' )
     else:
         res.bad( src, fn, 'process', 'the response encapsulation must be a copy of the request\'s (sender_context, session_handle, command echoed)' )
-    call = pfind( fn, '_p = ucmm.request( data.response, addr=addr )' )
+    call = pfind( fn, '_p = _u.request( data.response, addr=addr )' )
+    call = [ ( n_, m_ ) for n_, m_ in call if isinstance( m_['_u'], ast.Name ) and pfind( fn, '%s = setup( **kwds )' % m_['_u'].id ) ]
     rets = [ s for s in ast.walk( fn ) if isinstance( s, ast.Return ) and s.value is not None ]
     if call and any( dotted( r.value ) == call[0][1]['_p'].id for r in rets if isinstance( call[0][1]['_p'], ast.Name )):
         res.ok( src, call[0][0], 'process returns what ucmm.request( data.response ) returns' )
@@ -1288,8 +1289,9 @@ def d_echo( ctx ):
     res.note( 'assignment targets scanned: %d' % scanned )
     # Register: non-zero handle
     ur = usrc.get( 'UCMM.request' )
-    wl = [ w for w in ast.walk( ur ) if isinstance( w, ast.While ) and ( pmatch( w.test, 'not session or session in self.__class__.sessions' )
-                                                                         or pmatch( w.test, 'not session or session in self.sessions' )) ]
+    SESSION = ucmm_roles( ur ).get( 'session' ) or 'session'
+    wl = [ w for w in ast.walk( ur ) if isinstance( w, ast.While ) and ( pmatch( w.test, 'not %s or %s in self.__class__.sessions' % ( SESSION, SESSION ))
+                                                                         or pmatch( w.test, 'not %s or %s in self.sessions' % ( SESSION, SESSION ))) ]
     if wl:
         res.ok( usrc, wl[0], 'Register: the handle is re-drawn while zero or already in use' )
     else:
@@ -1299,14 +1301,15 @@ def d_echo( ctx ):
     if not ub:
         raise AnalysisError( 'UCMM.request: Unregister branch not found' )
     body = ub[0].body
-    setf = any( pmatch( s, 'proceed = False' ) for s in body )
+    UPROC = ucmm_roles( ur ).get( 'proceed' )
+    setf = any( pmatch( s, '%s = False' % UPROC ) for s in body )
     stores_input = any( isinstance( s, ast.Assign ) and 'input' in txt( s.targets[0] ) for b in body for s in ast.walk( b ))
     if setf and not stores_input:
         res.ok( usrc, ub[0], 'Unregister: proceed = False, no reply payload' )
     else:
         res.bad( usrc, ub[0], 'Unregister branch', 'Unregister Session must return nothing and end the session (proceed = False)' )
     rets = [ s for s in ur.body if isinstance( s, ast.Return ) ]
-    if rets and dotted( rets[-1].value ) == 'proceed':
+    if rets and UPROC and dotted( rets[-1].value ) == UPROC and pfind( ur, '%s = True' % UPROC ):
         res.ok( usrc, rets[-1], 'UCMM.request returns proceed' )
     else:
         res.bad( usrc, ur, 'UCMM.request return', 'must return the proceed flag' )
@@ -1355,14 +1358,17 @@ def a_offsets( ctx ):
     src = ctx.src( DEVICE )
     pr = src.get( 'Message_Router.produce' )
     n = 0
+    tables = []
     for f in ast.walk( pr ):
-        if isinstance( f, ast.For ) and isinstance( f.target, ast.Name ) and dotted( f.iter ) == 'offsets':
-            v = f.target.id
+        # an offset-table emitter: a loop over a list local whose body emits UINT.produce( ... ) of the loop variable
+        if isinstance( f, ast.For ) and isinstance( f.target, ast.Name ) and isinstance( f.iter, ast.Name ):
+            v = f.target.id; OFF = f.iter.id
             for c in ast.walk( f ):
-                if is_call_to( c, 'UINT.produce' ) and c.args:
+                if is_call_to( c, 'UINT.produce' ) and c.args and v in names_in( c.args[0] ):
                     n += 1
+                    tables.append( OFF )
                     lin = linear( c.args[0] )
-                    want = { '': 2, 'len(offsets)': 2, v: 1 }
+                    want = { '': 2, 'len(%s)' % OFF: 2, v: 1 }
                     if lin is not None and _canon( lin ) == _canon( want ):
                         res.ok( src, c, 'produced offset = %s = 2 + 2*N + running offset' % norm_text( c.args[0] ))
                     else:
@@ -1370,29 +1376,46 @@ def a_offsets( ctx ):
     if n < 1:
         raise AnalysisError( 'Message_Router.produce: no offset-table emitter found' )
     # count field = len( offsets )
-    cnts = [ c for c in ast.walk( pr ) if is_call_to( c, 'UINT.produce' ) and c.args and pmatch( c.args[0], 'len( offsets )' ) ]
+    cnts = [ c for c in ast.walk( pr ) if is_call_to( c, 'UINT.produce' ) and c.args and any( pmatch( c.args[0], 'len( %s )' % o ) for o in set( tables )) ]
     if len( cnts ) == n:
         res.ok( src, cnts[0], 'count field = len( offsets ) wherever an offset table is emitted' )
     else:
         res.bad( src, pr, 'Message_Router.produce count', 'the count field must be the number of offsets (= number of embedded messages)' )
-    # the parser closure
+    # the parser closure: roles from the artifact entries they are read from
     cl = src.get( 'state_multiple_service.terminate.closure' )
-    for name, idx in (( 'beg', 'offsets[oi]' ), ( 'end', 'offsets[oi+1]' )):
-        hits = [ s for s in ast.walk( cl ) if isinstance( s, ast.Assign ) and dotted( s.targets[0] ) == name and 'offsets' in names_in( s.value ) and isinstance( s.value, ast.BinOp ) ]
+    def role( suffix ):
+        for s_ in ast.walk( cl ):
+            if isinstance( s_, ast.Assign ) and isinstance( s_.targets[0], ast.Name ):
+                for part in [ s_.value ] + s_.targets[1:]:
+                    for v_ in ast.walk( part ):
+                        if isinstance( v_, ast.Constant ) and v_.value == suffix:
+                            return s_.targets[0].id
+        raise AnalysisError( 'closure: the local read from data[path + %r] not found' % suffix )
+    OFFS, REQDATA, REQUEST = role( '.multiple.offsets' ), role( '.multiple.request_data' ), role( '.multiple.request' )
+    loop = [ f for f in ast.walk( cl ) if isinstance( f, ast.For ) and pmatch( f.iter, 'range( len( %s ))' % OFFS ) and isinstance( f.target, ast.Name ) ]
+    if not loop:
+        raise AnalysisError( 'closure: loop over range( len( offsets )) not found' )
+    OI = loop[0].target.id
+    SM = Matcher()
+    sl = SM.find( cl, '_req.input = %s[_beg:_end]' % REQDATA )
+    if sl is None or not isinstance( SM.b.get( '_beg' ), ast.Name ) or not isinstance( SM.b.get( '_end' ), ast.Name ):
+        res.bad( src, cl, 'closure member slicing', 'each member must be reqdata[beg:end] between consecutive offsets, the last one to the end, appended in order' )
+        return res
+    BEG, END, REQ = SM.name( '_beg' ), SM.name( '_end' ), SM.name( '_req' )
+    for name, var, idx in (( 'beg', BEG, '%s[%s]' % ( OFFS, OI )), ( 'end', END, '%s[%s+1]' % ( OFFS, OI ))):
+        hits = [ s for s in ast.walk( cl ) if isinstance( s, ast.Assign ) and dotted( s.targets[0] ) == var and OFFS in names_in( s.value ) and isinstance( s.value, ast.BinOp ) ]
         if len( hits ) != 1:
             raise AnalysisError( 'closure: %s computation not found' % name )
         lin = linear( hits[0].value )
-        want = { idx: 1, 'len(offsets)': -2, '': -2 }
+        want = { idx: 1, 'len(%s)' % OFFS: -2, '': -2 }
         if lin is not None and _canon( lin ) == _canon( want ):
             res.ok( src, hits[0], 'parsed %s = %s = offset - ( 2 + 2*N )' % ( name, norm_text( hits[0].value )))
         else:
             res.bad( src, hits[0], hits[0], 'slice bound must be offset - ( 2 + 2*N ): offsets are relative to the start of the count field' )
     # last member to the end; slice and append in order
-    last = [ s for s in ast.walk( cl ) if isinstance( s, ast.Assign ) and dotted( s.targets[0] ) == 'end' and pmatch( s.value, 'len( reqdata )' ) ]
-    loop = [ f for f in ast.walk( cl ) if isinstance( f, ast.For ) and pmatch( f.iter, 'range( len( offsets ))' ) ]
-    sl = pfind( cl, 'req.input = reqdata[beg:end]' )
-    app = pfind( cl, 'request.append( req )' )
-    if last and loop and sl and app:
+    last = [ s for s in ast.walk( cl ) if isinstance( s, ast.Assign ) and dotted( s.targets[0] ) == END and pmatch( s.value, 'len( %s )' % REQDATA ) ]
+    app = pfind( cl, '%s.append( %s )' % ( REQUEST, REQ ))
+    if last and loop and sl is not None and app:
         res.ok( src, loop[0], 'members sliced reqdata[beg:end] between consecutive offsets (last to the end), appended in offset order' )
     else:
         res.bad( src, cl, 'closure member slicing', 'each member must be reqdata[beg:end] between consecutive offsets, the last one to the end, appended in order' )
@@ -1533,7 +1556,8 @@ def p_each( ctx ):
     # same target for all members, addr forwarded
     for c in calls:
         call = [ x for x in ast.walk( c.stmt ) if isinstance( x, ast.Call ) and isinstance( x.func, ast.Attribute ) and x.func.attr == 'request' ][0]
-        if dotted( call.func.value ) == 'target' and any( k.arg == 'addr' and dotted( k.value ) == 'addr' for k in call.keywords ):
+        routed = { t.id for a_ in ast.walk( fn ) if isinstance( a_, ast.Assign ) and is_call_to( a_.value, 'self.route' ) for t in a_.targets if isinstance( t, ast.Name ) }
+        if dotted( call.func.value ) in routed and any( k.arg == 'addr' and dotted( k.value ) == 'addr' for k in call.keywords ):
             res.ok( src, call, 'member dispatched to the routed target with the session addr' )
         else:
             res.bad( src, call, call, 'members must be dispatched to the routed target object with the session address' )
@@ -1566,7 +1590,11 @@ def p_closure( ctx ):
     else:
         res.bad( src, fn, 'closure executions on the normal path: %s' % ( cnt2.get( cfg.exit ), ), 'members must be parsed exactly once (posted xor run)' )
     # guard: posted iff the target parser's lock is held
-    t = [ n for n in cfg.nodes if n.kind == 'test' and pmatch( n.expr, 'target.parser.lock.locked()' ) ]
+    looked = sorted( { t_.id for a_ in ast.walk( fn ) if isinstance( a_, ast.Assign ) and is_call_to( a_.value, 'lookup' ) for t_ in a_.targets if isinstance( t_, ast.Name ) } )
+    if len( looked ) != 1:
+        raise AnalysisError( 'state_multiple_service.terminate: the target object ( <name> = lookup( *ids )) not found' )
+    TARGET = looked[0]
+    t = [ n for n in cfg.nodes if n.kind == 'test' and pmatch( n.expr, '%s.parser.lock.locked()' % TARGET ) ]
     if t and all( cfg.must_pass( cfg.entry, p, [ m for m, l in cfg.succ[t[0]] if l == 'true' ], correlated=False ) for p in post ) \
        and all( cfg.must_pass( cfg.entry, r, [ m for m, l in cfg.succ[t[0]] if l == 'false' ], correlated=False ) for r in run ):
         res.ok( src, t[0].stmt, 'posted when target.parser.lock.locked(), run directly otherwise' )
@@ -1574,8 +1602,8 @@ def p_closure( ctx ):
         res.bad( src, fn, 'closure dispatch', 'post when the target parser lock is held (re-entrancy), run directly otherwise' )
     # the closure parses with the target's parser under its lock and asserts terminal
     cl = src.get( 'state_multiple_service.terminate.closure' )
-    w = [ x for x in ast.walk( cl ) if isinstance( x, ast.With ) and txt( x.items[0].context_expr ) == 'target.parser' ]
-    asserts = [ a for a in ast.walk( cl ) if isinstance( a, ast.Assert ) and pmatch( a.test, 'machine.terminal' ) ]
+    w = [ x for x in ast.walk( cl ) if isinstance( x, ast.With ) and txt( x.items[0].context_expr ) == TARGET + '.parser' and isinstance( x.items[0].optional_vars, ast.Name ) ]
+    asserts = [ a for a in ast.walk( cl ) if isinstance( a, ast.Assert ) and w and pmatch( a.test, '%s.terminal' % w[0].items[0].optional_vars.id ) ]
     if w and asserts:
         res.ok( src, w[0], 'each member parsed with target.parser (locked) and asserted terminal' )
     else:
@@ -1712,14 +1740,37 @@ def route_expected( kind, rkind ):
     return rkind in ( 'absent', 'empty', 'equal' )
 
 
+def ucmm_roles( fn ):
+    """local names of UCMM.request by role: proceed = the name of the final `return`; unc = the local bound to ...unconnected_send;
+    rp = the local read from <unc>.get( 'route_path.segment' ); session = the local stored into data.enip.session_handle"""
+    r = {}
+    rets = [ s for s in fn.body if isinstance( s, ast.Return ) and isinstance( s.value, ast.Name ) ]
+    if rets:
+        r['proceed'] = rets[-1].value.id
+    for a in walk_no_nested( fn ):
+        if isinstance( a, ast.Assign ) and isinstance( a.targets[0], ast.Name ):
+            if isinstance( a.value, ast.Attribute ) and a.value.attr == 'unconnected_send' and 'unc' not in r:
+                r['unc'] = a.targets[0].id
+            if isinstance( a.value, ast.Call ) and isinstance( a.value.func, ast.Attribute ) and a.value.func.attr == 'get' and a.value.args \
+               and try_fold( a.value.args[0] ) == 'route_path.segment':
+                r['rp'] = a.targets[0].id
+        if isinstance( a, ast.Assign ) and any(( dotted( t ) or '' ).endswith( 'enip.session_handle' ) for t in a.targets ) and isinstance( a.value, ast.Name ):
+            r['session'] = a.value.id
+    return r
+
+
 @rule( 'B-ROUTE', props=( 'C15', ), floor=12 )
 def b_route( ctx ):
     """the route-path acceptance expression of UCMM.request equals the specified decision table on every cell of the finite abstract domain"""
     res = Result( 'B-ROUTE' )
     src = ctx.src( UCMM )
     fn = src.get( 'UCMM.request' )
-    asserts = [ a for a in ast.walk( fn ) if isinstance( a, ast.Assert ) and { 'route_path', 'self.route_path' } <= dotted_in( a.test ) ]
-    raising_ifs = [ i for i in ast.walk( fn ) if isinstance( i, ast.If ) and { 'route_path', 'self.route_path' } <= dotted_in( i.test )
+    RP = ucmm_roles( fn ).get( 'rp' )
+    if RP is None:
+        res.bad( src, fn, 'route_path definition', 'the tested route path must be the request\'s unconnected_send route_path.segment list (None when absent)' )
+        return res
+    asserts = [ a for a in ast.walk( fn ) if isinstance( a, ast.Assert ) and { RP, 'self.route_path' } <= dotted_in( a.test ) ]
+    raising_ifs = [ i for i in ast.walk( fn ) if isinstance( i, ast.If ) and { RP, 'self.route_path' } <= dotted_in( i.test )
                     and any( isinstance( b, ast.Raise ) for b in i.body ) ]
     if len( asserts ) + len( raising_ifs ) != 1:
         if not asserts and not raising_ifs:
@@ -1732,7 +1783,7 @@ def b_route( ctx ):
         node, test, negate = raising_ifs[0], raising_ifs[0].test, True
     # the request route path must come from the unconnected send's route_path segments
     ld = LocalDefs( fn )
-    rp_defs = ld.defs.get( 'route_path', [] )
+    rp_defs = ld.defs.get( RP, [] )
     if any( isinstance( d, ast.Call ) and isinstance( d.func, ast.Attribute ) and d.func.attr == 'get' and d.args and try_fold( d.args[0] ) == 'route_path.segment' for d in rp_defs ):
         res.ok( src, fn, "route_path = unc_send.get( 'route_path.segment' )" )
     else:
@@ -1741,13 +1792,13 @@ def b_route( ctx ):
     guards = []
     cur = node
     for a in src.ancestors( node ):
-        if isinstance( a, ast.If ) and dotted_in( a.test ) <= { 'route_path', 'self.route_path', 'self' } and dotted_in( a.test ) & { 'route_path', 'self.route_path' }:
+        if isinstance( a, ast.If ) and dotted_in( a.test ) <= { RP, 'self.route_path', 'self' } and dotted_in( a.test ) & { RP, 'self.route_path' }:
             guards.append(( a.test, cur in a.body or any( cur is x or cur in ast.walk( x ) for x in a.body )))
         cur = a
         if isinstance( a, ast.FunctionDef ):
             break
     def accept( cfgv, reqv ):
-        env = { 'route_path': reqv, 'self.route_path': cfgv }
+        env = { RP: reqv, 'self.route_path': cfgv }
         for gtest, in_body in guards:
             g = bool( fold( gtest, env ))
             if g != in_body:
@@ -1781,12 +1832,14 @@ def d_refuse( ctx ):
     src = ctx.src( UCMM )
     fn = src.get( 'UCMM.request' )
     cfg = CFG( fn )
+    roles = ucmm_roles( fn )
+    UNC, RP = roles.get( 'unc' ), roles.get( 'rp' )
     disp = [ n for n in cfg.nodes if n.kind == 'stmt' and n.stmt is not None and any(
-        isinstance( c, ast.Call ) and isinstance( c.func, ast.Attribute ) and c.func.attr == 'request' and c.args and dotted( c.args[0] ) == 'unc_send'
+        isinstance( c, ast.Call ) and isinstance( c.func, ast.Attribute ) and c.func.attr == 'request' and c.args and dotted( c.args[0] ) == UNC
         for c in ast.walk( n.stmt )) ]
     if not disp:
         raise AnalysisError( 'UCMM.request: local dispatch CM.request( unc_send, ... ) not found' )
-    acc = [ n for n in cfg.nodes if n.kind == 'stmt' and isinstance( n.stmt, ast.Assert ) and { 'route_path', 'self.route_path' } <= dotted_in( n.stmt.test ) ]
+    acc = [ n for n in cfg.nodes if n.kind == 'stmt' and isinstance( n.stmt, ast.Assert ) and { RP, 'self.route_path' } <= dotted_in( n.stmt.test ) ]
     guard = [ n for n in cfg.nodes if n.kind == 'test' and pmatch( n.expr, 'self.route_path is not None' ) ]
     skip = [ m for g_ in guard for m, l in cfg.succ[g_] if l == 'false' ]
     for d in disp:
@@ -1944,9 +1997,14 @@ def t_attrkeys( ctx ):
                         res.bad( src, c, c, 'attribute ids must be compared numerically' )
     src = ctx.src( LOGIX )
     st = src.get( 'setup_tag' )
-    inc = [ s for s in ast.walk( st ) if isinstance( s, ast.AugAssign ) and dotted( s.target ) == 'att' and isinstance( s.op, ast.Add ) and try_fold( s.value ) == 1 ]
-    store = pfind( st, 'instance.attribute[str( att )]' )
-    if inc and store:
+    AM = Matcher()
+    store = AM.find( st, '_inst.attribute[str( _att )]' )
+    ATT = AM.name( '_att' )
+    inc = [ s for s in ast.walk( st ) if isinstance( s, ast.AugAssign ) and dotted( s.target ) == ATT and isinstance( s.op, ast.Add ) and try_fold( s.value ) == 1 ]
+    # ... and the id before the increment is the largest existing one of the same instance
+    big = [ s for s in ast.walk( st ) if isinstance( s, ast.Assign ) and dotted( s.targets[0] ) == ATT and store is not None
+            and any( isinstance( x, ast.Attribute ) and x.attr == 'attribute' and dotted( x.value ) == AM.name( '_inst' ) for x in ast.walk( s.value )) ]
+    if inc and store is not None and big:
         res.ok( src, inc[0], 'new tag: att = largest id + 1, stored at instance.attribute[str( att )]' )
         n += 1
     else:
@@ -1998,7 +2056,12 @@ def p_proceed( ctx ):
     cd = src.get( 'UCMM' )
     fn = src.get( 'UCMM.request' )
     # the dispatch: key = the single key of enip.CIP; method = getattr( self, key, None ); proceed = method( data )
-    if pfind( fn, 'method = getattr( self, key, None )' ) and pfind( fn, 'proceed = method( data )' ):
+    PROCEED = ucmm_roles( fn ).get( 'proceed' )
+    if PROCEED is None:
+        raise AnalysisError( 'UCMM.request: final `return <proceed>` not found' )
+    PM = Matcher()
+    if PM.find( fn, '_method = getattr( self, _key, None )' ) is not None and PM.find( fn, '%s = _method( data )' % PROCEED ) is not None \
+       and PM.find( fn, '_key = next( iter( dict.keys( _cip )))' ) is not None:
         res.ok( src, fn, 'other commands are dispatched to the method named after the CIP command and its result becomes proceed' )
     else:
         res.bad( src, fn, 'UCMM.request command dispatch', 'unrecognised-by-name commands must be dispatched to their method and its result returned as proceed' )
@@ -2026,8 +2089,8 @@ def p_proceed( ctx ):
         else:
             res.bad( src, m[0], 'UCMM.%s' % nm, why )
     # proceed discipline in request
-    inits = pfind( fn, 'proceed = True' )
-    falses = [ s for s in ast.walk( fn ) if pmatch( s, 'proceed = False' ) ]
+    inits = pfind( fn, '%s = True' % PROCEED )
+    falses = [ s for s in ast.walk( fn ) if pmatch( s, '%s = False' % PROCEED ) ]
     ub = [ i for i in ast.walk( fn ) if isinstance( i, ast.If ) and "'enip.CIP.unregister'indata" in txt( i.test ) ]
     if inits and len( falses ) == 1 and ub and falses[0] in ub[0].body:
         res.ok( src, falses[0], 'proceed starts True and is cleared only by Unregister Session' )
@@ -2065,9 +2128,11 @@ def s_resolve( ctx ):
     for rel, qn in (( DEVICE, 'Connection_Manager.request' ), ( DEVICE, 'Message_Router.request' ), ( LOGIX, 'Logix.request' )):
         src = ctx.src( rel )
         fn = src.get( qn )
+        ordinal = 0
         for c in walk_no_nested( fn ):
             if not ( isinstance( c, ast.Call ) and ( call_name( c ) in ( 'resolve', 'device.resolve' ) or call_name( c ) == 'self.route' )):
                 continue
+            ordinal += 1
             # routing of the *whole* request to another object at the top of a handler (`target = self.route( data, fail=ROUTE_FALSE )`)
             # returns None instead of raising; skip calls that cannot raise by construction
             if call_name( c ) == 'self.route' and any( k.arg == 'fail' and ( dotted( k.value ) or '' ).endswith( 'ROUTE_FALSE' ) for k in c.keywords ):
@@ -2085,7 +2150,7 @@ def s_resolve( ctx ):
             if conv is not None:
                 res.ok( src, c, '%s: failure of %s becomes a CIP error status' % ( qn, norm_text( c )[:40] ))
             else:
-                res.bad( src, c, '%s: %s is not inside a status-converting try' % ( qn, norm_text( c )[:60] ),
+                res.bad( src, c, '%s: path resolution #%d ( %s ) is not inside a status-converting try' % ( qn, ordinal, call_name( c )),
                          'when the path does not resolve (e.g. an unknown tag) the standalone request fails as a whole (exception -> encapsulation status 0x08, session ends) while the same request as a bundle member gets CIP status 0x05', func=qn )
     return res
 
@@ -2150,13 +2215,16 @@ def t_symbol( ctx ):
     else:
         res.bad( src, sd[0] if sd else oi, sd[0] if sd else 'Object.__init__ directory registration', "an Object must register at directory['<class>.<instance>'] with itself under '0' (the key lookup() reads)" )
     lk = src.get( 'lookup' )
-    if pfind( lk, 'directory.get( key, None )' ) and pfind( lk, '__directory_path( class_id=class_id, instance_id=instance_id, attribute_id=attribute_id )' ):
+    LM = Matcher()
+    if LM.find( lk, '_key = __directory_path( class_id=class_id, instance_id=instance_id, attribute_id=attribute_id )' ) is not None \
+       and LM.find( lk, 'directory.get( _key, None )' ) is not None:
         res.ok( src, lk, 'lookup reads directory.get( __directory_path( ... ))' )
     else:
         res.bad( src, lk, 'lookup', 'lookup must read the directory under the __directory_path key' )
     # resolve_element: the first element segment, default ( 0, )
     re_ = src.get( 'resolve_element' )
-    if pfind( re_, "element.append( term['element'] )" ) and pfind( re_, 'tuple( element ) if element else ( 0, )' ):
+    EM = Matcher()
+    if EM.find( re_, "_el.append( _term['element'] )" ) is not None and EM.find( re_, 'tuple( _el ) if _el else ( 0, )' ) is not None:
         res.ok( src, re_, 'resolve_element: the path\'s element segment, default element 0' )
     else:
         res.bad( src, re_, 'resolve_element', 'the element index is the path\'s element segment, defaulting to 0' )
